@@ -415,6 +415,25 @@ def NDX():
     ]
 
 
+def NEST2():
+    """Every binning type directly inside every binning type, with a leaf that is not a Count (the library picks a
+    specialised class from the pair of types and from what the leaves are at the time it looks)."""
+    sy = {"t": "Sum", "q": "y"}
+    mk = {
+        "Bin": lambda v, q: {"t": "Bin", "p": BIN_CFG[0], "q": q, "v": v},
+        "SparselyBin": lambda v, q: {"t": "SparselyBin", "p": SPARSE_CFG[0], "q": q, "v": v},
+        "CentrallyBin": lambda v, q: {"t": "CentrallyBin", "p": CENTRAL_CFG[0], "q": q, "v": v},
+        "IrregularlyBin": lambda v, q: {"t": "IrregularlyBin", "p": IRR_CFG[0], "q": q, "v": v},
+        "Categorize": lambda v, q: {"t": "Categorize", "q": "c", "v": v},
+    }
+    out = [mk[o](mk[i](sy, "y"), "x") for o in mk for i in mk]
+    for leaf in ({"t": "Average", "q": "y"}, {"t": "Deviate", "q": "y"}, {"t": "Minimize", "q": "y"},
+                 {"t": "Bag", "q": "y", "range": "N"}):
+        out.append(mk["SparselyBin"](mk["SparselyBin"](leaf, "y"), "x"))
+        out.append(mk["Bin"](mk["Bin"](leaf, "y"), "x"))
+    return out
+
+
 def D3_leaves():
     return [{"t": "Count"}, {"t": "Sum", "q": "y"}, {"t": "Average", "q": "y"}, {"t": "Bag", "q": "y", "range": "N"}]
 
